@@ -84,11 +84,12 @@ impl Monitor for C08 {
             ("damage_aimed_at_type", tier.pick(3_000, 100_000)),
             ("damage_aimed_at_crc", tier.pick(3_000, 100_000)),
             ("frames_retyped_as_another_valid_type", tier.pick(3_000, 100_000)),
+            ("damage_kind_empty-frame-chain-to-block-end", tier.pick(3_000, 100_000)),
             ("images_with_a_frame_starting_at_a_forged_entry", tier.pick(100, 3_000)),
         ]
     }
     fn rule(&self) -> String {
-        "case = one generated history (incl. delete/re-create, multi-frame entries, GC) whose final WAL image is damaged in 200 (quick) / 500 (thorough) different ways, each 1..8 in-place overwrites: bit flips, 1..64 garbage bytes, zero-fill, whole-block and multi-block garbage, copied stale chunks, and variants aimed at the crc / len / type bytes, payload, whole frame and block edges of randomly chosen frames; evaluation = one open() of a damaged image; oracle: on Ok every recovered record must be (queue, position, len, content hash) of some append of the history and positions per queue strictly increase; distinct_nontrivial = distinct damaged images (by damage-set hash) that hit at least one byte inside the written extent of a file holding records".into()
+        "case = one generated history (incl. delete/re-create, multi-frame entries, GC) whose final WAL image is damaged in 200 (quick) / 500 (thorough) different ways, each 1..8 in-place overwrites: bit flips, 1..64 garbage bytes, zero-fill, whole-block and multi-block garbage, copied stale chunks, chains of syntactically valid empty frames from a frame start to the end of its block, and variants aimed at the crc / len / type bytes, payload, whole frame and block edges of randomly chosen frames; evaluation = one open() of a damaged image; oracle: on Ok every recovered record must be (queue, position, len, content hash) of some append of the history and positions per queue strictly increase; distinct_nontrivial = distinct damaged images (by damage-set hash) that hit at least one byte inside the written extent of a file holding records".into()
     }
     fn assumptions(&self) -> Vec<String> {
         vec![
@@ -130,7 +131,8 @@ impl Monitor for C08 {
         acc.add("frames_in_images", frames.len() as u64);
         // coverage: does some continuation frame of this image start exactly at a forged entry?
         let fe = crate::ops::forged_entry();
-        let forged_starts = frames.iter().filter(|(n, f)| f.ftype >= 3 && f.len >= fe.len() && img.files[n][f.payload_off()..f.payload_off() + fe.len()] == fe[..]).count();
+        let fixed = fe.len() - 11; // all but the per-payload unique record bytes
+        let forged_starts = frames.iter().filter(|(n, f)| f.ftype >= 3 && f.len >= fe.len() && img.files[n][f.payload_off()..f.payload_off() + fixed] == fe[..fixed]).count();
         if forged_starts > 0 {
             acc.count("images_with_a_frame_starting_at_a_forged_entry");
         }
